@@ -296,3 +296,31 @@ MUTANTS += [
     dict(prop="C08", name="mask-sorted-by-stop", file=IV,
          old="    merged = merge_intervals(intervals[np.argsort(intervals.start)])", new="    merged = merge_intervals(intervals[np.argsort(intervals.start, kind='stable')][::1] if len(intervals) < 3 else intervals[np.lexsort((intervals.start, intervals.stop))])"),
 ]
+
+GT = "bionumpy/genomic_data/genomic_track.py"
+
+MUTANTS += [
+    # ---- C09 ----------------------------------------------------------------------------
+    dict(prop="C09", name="bedgraph-leading-zero-run-missing", file=IV,
+         old="        if events[0] != 0:\n            events = np.insert(events, 0, 0)\n            values = np.insert(values, 0, 0)\n        return cls(events, values)",
+         new="        if events[0] > 1:\n            events = np.insert(events, 0, 0)\n            values = np.insert(values, 0, 0)\n        return cls(events, values)"),
+    dict(prop="C09", name="bedgraph-gap-after-wrong-record", file=IV,
+         old="            start = np.insert(bedgraph.start, missing_idx+1, bedgraph.stop[missing_idx])\n            value = np.insert(bedgraph.value, missing_idx+1, 0)",
+         new="            start = np.insert(bedgraph.start, missing_idx+1, bedgraph.stop[missing_idx])\n            value = np.insert(bedgraph.value, np.where(missing_idx > 2, missing_idx, missing_idx+1), 0)"),
+    dict(prop="C09", name="bedgraph-trailing-zero-when-ends-one-before", file=IV,
+         old="        if (size is None) or (size == bedgraph.stop[-1]):", new="        if (size is None) or (size <= bedgraph.stop[-1] + 1):"),
+    dict(prop="C09", name="to-array-first-run-position", file=IV,
+         old="        array[self._starts[0]] = values[0]\n", new="        array[self._starts[min(1, len(self._starts) - 1)] if values[0] == 0 else self._starts[0]] = values[0]\n"),
+    dict(prop="C09", name="get-data-bool-keeps-false-runs", file=GT,
+         old="                            data.starts, data.ends)[data.values]", new="                            data.starts, data.ends)[data.values | (data.ends - data.starts > 7)]"),
+    dict(prop="C09", name="to-dict-size-of-previous", file=GT,
+         old="        return {name: self._global_track[offset:offset + size].to_array()\n                for name, offset, size in zip(names, offsets, sizes)}",
+         new="        return {name: self._global_track[offset:offset + size].to_array()\n                for name, offset, size in zip(names, offsets, np.maximum.accumulate(sizes) if len(sizes) > 2 else sizes)}"),
+    dict(prop="C09", name="ufunc-operand-order (seeded C09-a)", file=GT,
+         old="        inputs = [(i._global_track if isinstance(i, GenomicArrayGlobal) else i) for i in inputs]\n        r = self._global_track.__array_ufunc__(ufunc, method, *inputs, **kwargs)",
+         new="        tracks = [i._global_track for i in inputs if isinstance(i, GenomicArrayGlobal)]\n        operands = [i for i in inputs if not isinstance(i, GenomicArrayGlobal)]\n        r = tracks[0].__array_ufunc__(ufunc, method, *tracks, *operands, **kwargs)"),
+    dict(prop="C09", name="sum-of-runs-not-bases", file=GT,
+         old="        assert axis is None\n        return self._global_track.sum(axis=None)", new="        assert axis is None\n        return self._global_track.sum(axis=None) if len(self._global_track.starts) != 3 else self._global_track.values.sum()"),
+    dict(prop="C09", name="mask-drops-interval-at-genome-end", file=IV,
+         old="    postfix = [size] if (len(ends) == 0 or ends[-1] != size) else []", new="    postfix = [size] if (len(ends) == 0 or ends[-1] < size - 1) else []"),
+]
